@@ -215,6 +215,11 @@ class VLoop(asyncio.SelectorEventLoop):
 async def run_in_thread(func, *args):
     """Replacement bound to the modules' `run_in_thread` names."""
     loop = asyncio.get_event_loop()
+    if not hasattr(loop, 'submit'):
+        # a suite that runs later in the same process on an ordinary loop (the rebinding of the real
+        # modules outlives the world that made it)
+        import aiorpcx
+        return await aiorpcx.run_in_thread(func, *args)
     return await loop.submit(func, *args)
 
 
